@@ -714,13 +714,19 @@ impl<'w> Exec for Exec18<'w> {
                         Err(_) => Err("panic(observation only)".into()),
                     }));
                 }
+                // A directory or a read-only file where a target FILE should go does not make the
+                // FOLDER unwritable: an implementation may fail, or may replace the obstacle. Err is
+                // accepted; Ok is accepted if the files then are what a healthy export leaves; a
+                // panic never is.
+                let soft = matches!(self.state, Some(FolderFault::NameIsDir) | Some(FolderFault::TargetFileReadOnly));
                 if !healthy {
                     let k = fault_name(self.state.unwrap());
-                    return match r {
-                        Ok(Err(e)) => StepOut::ok(Obs::Export(Err(sut::err_kind(&e)))),
-                        Ok(Ok(())) => StepOut::fail(Obs::Export(Ok(())), viol(format!("C18/fault/{}/returned_ok", k), idx, "Err(..)", "Ok(())")),
-                        Err(p) => StepOut::fail(Obs::Panic(p.clone()), viol(format!("C18/fault/{}/panic", k), idx, "Err(..), not a panic", p)),
-                    };
+                    match &r {
+                        Ok(Err(e)) => return StepOut::ok(Obs::Export(Err(sut::err_kind(e)))),
+                        Ok(Ok(())) if !soft => return StepOut::fail(Obs::Export(Ok(())), viol(format!("C18/fault/{}/returned_ok", k), idx, "Err(..)", "Ok(())")),
+                        Ok(Ok(())) => bump("probe.obstacle_replaced_by_export"),
+                        Err(p) => return StepOut::fail(Obs::Panic(p.clone()), viol(format!("C18/fault/{}/panic", k), idx, "Err(..), not a panic", p)),
+                    }
                 }
                 // healthy folder (incl. after heal, incl. over stale longer files)
                 if self.healed_once {
